@@ -253,6 +253,51 @@ example : cwIs exContracts ⟨none, some [sg 0xA1 scCalledByEntry]⟩
     ((VM.empty.run [.loadWithFlags 0xE0 fAll, .contractCall 0xC2 fAll false false,
       .contractCall 0xC1 fAll false false]).toOption.getD VM.empty) 0xA1 (.ok false) := by unfold cwIs; decide
 
+/-- C15-exec-entry-hash. IsCalledByEntry is about script CONTEXTS, not script hashes. In a state reached by
+honest steps the context-based test implies the hash-based one (calling hash zero or equal to the entry
+hash) ... -/
+theorem calledByEntry_implies_hash_form {v : VM} (hv : Honest v) (k : Hash → Option (List Key)) (e : Env)
+    (he : v.env k = some e) (hcbe : e.isCalledByEntry = true) : e.calling = 0 ∨ e.calling = e.entry := by
+  have hl := reach_linked (fun _ _ hp => hp) hv
+  cases hst : v.istack with
+  | nil => simp [VM.env, hst] at he
+  | cons s rest =>
+    have he' : e = envSC k s := by
+      rw [env_of_cons k hst] at he; exact (Option.some.inj he).symm
+    have hs := hl s (by simp [hst])
+    subst he'
+    rw [isCalledByEntry_env] at hcbe
+    rw [calling_linked k s hs, env_entry_root]
+    cases s with
+    | root f => exact Or.inl rfl
+    | child f p =>
+      cases p with
+      | root g => exact Or.inr rfl
+      | child g q => simp [SC.isCalledByEntry] at hcbe
+
+/-- ... but not conversely: when the entry script's hash comes back deeper in the chain — a contract loads a
+dynamic script that is a byte-for-byte copy of the entry script, and that script calls a contract — the
+innermost context's calling hash IS the entry hash, four loads deep. The code (and the model) refuse a
+CalledByEntry signer there; a check by hashes would let it pass. -/
+theorem hash_form_is_not_enough :
+    ∃ v : VM, Exec v ∧ ∃ e, v.env exContracts = some e ∧
+      e.calling = e.entry ∧ e.calling ≠ 0 ∧ e.isCalledByEntry = false ∧ v.liveLoads = 4 ∧
+      cwIs exContracts ⟨none, some [sg 0xA1 scCalledByEntry]⟩ v 0xA1 (.ok false) := by
+  let s1 : SC := .root ⟨0xE0, 0, fAll⟩
+  let s2 : SC := .child ⟨0xC2, 0xE0, fAll⟩ s1
+  let s3 : SC := .child ⟨0xE0, 0xC2, fReadOnly⟩ s2
+  let s4 : SC := .child ⟨0xC1, 0xE0, fReadOnly⟩ s3
+  have h1 : VM.empty.step (.loadWithFlags 0xE0 fAll) = .ok ⟨[s1]⟩ := by decide
+  have h2 : (VM.mk [s1]).step (.contractCall 0xC2 fAll false false) = .ok ⟨[s2, s1]⟩ := by decide
+  have h3 : (VM.mk [s2, s1]).step (.runtimeLoadScript 0xE0 fAll) = .ok ⟨[s3, s2, s1]⟩ := by decide
+  have h4 : (VM.mk [s3, s2, s1]).step (.contractCall 0xC1 fAll false false) = .ok ⟨[s4, s3, s2, s1]⟩ := by decide
+  have r1 : Exec ⟨[s1]⟩ := Reach.step (op := .loadWithFlags 0xE0 fAll) Reach.empty ⟨trivial, Or.inl rfl⟩ h1
+  have r2 : Exec ⟨[s2, s1]⟩ := Reach.step (op := .contractCall 0xC2 fAll false false) r1 ⟨trivial, Or.inr rfl⟩ h2
+  have r3 : Exec ⟨[s3, s2, s1]⟩ := Reach.step (op := .runtimeLoadScript 0xE0 fAll) r2 ⟨trivial, Or.inr rfl⟩ h3
+  have r4 : Exec ⟨[s4, s3, s2, s1]⟩ := Reach.step (op := .contractCall 0xC1 fAll false false) r3 ⟨trivial, Or.inr rfl⟩ h4
+  refine ⟨_, r4, envSC exContracts s4, rfl, by decide, by decide, by decide, by decide, ?_⟩
+  unfold cwIs; decide
+
 /-- C15-exec-custom. CustomContracts alone: exactly when the executing script's hash is listed. -/
 theorem exec_custom_contracts {v : VM} (hv : Honest v) (k : Hash → Option (List Key)) (ic : IC) (h : Hash)
     (s : Signer) (hne : v.istack ≠ []) (hd : decides ic.signers h s) (hsc : s.scopes = scCustomContracts)
